@@ -427,9 +427,10 @@ void runHostile(const Plan& p)
 			sim::fail("handler_mismatch", "dispatched_incomplete_head", "a request whose head was cut after %zu of %zu bytes (peer closed) was handed to the application", pe.cutAt, pe.headLen);
 			continue;
 		}
-		if (pe.sentAll && pe.stallMs < 4000)
+		if (pe.sentAll && pe.stallMs < 4000 && !p.get("relaxed"))
 		{
-			// a complete well-formed request (a peer that stalls beyond the library's 5-10 s waits is treated like one that
+			// a complete well-formed request (a peer that stalls beyond the library's 5-10 s waits, or a run in which the scheduler may starve threads
+			// for arbitrary simulated time, is treated like one that
 			// stopped sending: the application may then see the part that had arrived): the application must have seen exactly what was sent
 			if (s->oMethod != s->method)
 				sim::fail("handler_mismatch", "method", "well-formed request: sent method %s, handler saw %s", s->method.c_str(), s->oMethod.c_str());
